@@ -618,6 +618,42 @@ pub fn accuracy(args: &[String]) {
             } } }
         }
     }
+    // solutions of size 1e-12 .. 1e-15 under pure relative control, or with an absolute tolerance scaled down with them: the
+    // error control has to follow the size of the solution (an error scale that is floored at an absolute constant stops
+    // controlling such components), and the result is the scaled result of the size-1 problem
+    {
+        let mut k = 0;
+        for method in METHODS { for (size, rtol, atol_rel) in [(1e-12, 1e-8, 0.0), (1e-15, 1e-6, 0.0), (1e-13, 1e-7, 1e-3)] { for back in [false, true] {
+            let p = Tiny { size, lam: [-0.7, -3.0] };
+            let xend = if back { -0.8 } else { 2.0 };
+            let atol = atol_rel * rtol * size;
+            let o = Options::builder().method(method).rtol(rtol).atol(atol).build();
+            let (mut why, mut extra) = (String::new(), String::new());
+            match catch_unwind(AssertUnwindSafe(|| solve_ivp(&p, 0.0, xend, &[size, -2.0 * size], o))) {
+                Ok(Ok(s)) => {
+                    let nacc = s.naccpt.max(1) as f64;
+                    let mut rmax = 0.0f64;
+                    for (t, y) in s.t.iter().zip(s.y.iter()) {
+                        let ex = [size * (p.lam[0] * t).exp(), -2.0 * size * (p.lam[1] * t).exp()];
+                        for i in 0..2 { let b = 10.0 * nacc * (atol + rtol * ex[i].abs()) + 200.0 * f64::EPSILON * nacc * ex[i].abs(); rmax = rmax.max((y[i] - ex[i]).abs() / b); }
+                    }
+                    extra = format!("\"size\":{:e},\"rtol\":{},\"naccpt\":{},\"ratio\":{},", size, jnum(rtol), s.naccpt, jnum(rmax));
+                    if s.status != Status::Success { why = format!("status {:?}", s.status); }
+                    else if rmax > 0.5 { why = format!("solution of size {:e}, rtol {:e}, atol {:e}: error is {:.2} times 10 * naccpt * (atol + rtol |y|) ({} accepted steps)", size, rtol, atol, rmax, s.naccpt); }
+                }
+                _ => why = "run fails".into(),
+            }
+            row("ac", 210000 + k, "tiny-solution", Kind::Decay3, method, "c01-accuracy", &why, &extra);
+            k += 1;
+        } } }
+    }
+}
+
+/// y_i' = lam_i y_i started at a state of size `size` (two uncoupled components)
+struct Tiny { size: f64, lam: [f64; 2] }
+impl IVP for Tiny {
+    fn ode(&self, _x: f64, y: &[f64], d: &mut [f64]) { let _ = self.size; d[0] = self.lam[0] * y[0]; d[1] = self.lam[1] * y[1]; }
+    fn jac(&self, _x: f64, _y: &[f64], j: &mut Matrix) { j[(0, 0)] = self.lam[0]; j[(0, 1)] = 0.0; j[(1, 0)] = 0.0; j[(1, 1)] = self.lam[1]; }
 }
 
 /// y0' = w y1, y1' = -w y0: rotation with angular velocity w, solution (cos wt, -sin wt)
